@@ -23,7 +23,7 @@ def _desc(S, C, kind, rng):
     if kind == "grid" and C == 4 and rng.random() < 0.5:
         sp.update(w=2, h=2)
     return {"envs": ["e0"], "net_units": ["µm", "s", "molecule"], "sys_units": ["µm", "s", "molecule"],
-            "species": [{"label": "ABCD"[k], "units": ["µm", "s", "molecule"], "D": {"scalar": {"bare": 0.0}},
+            "species": [{"label": "ABCDE"[k], "units": ["µm", "s", "molecule"], "D": {"scalar": {"bare": 0.0}},
                          "dens": {"scalar": {"bare": 0.0}}, "chstt": {"scalar": False}} for k in range(S)],
             "reactions": [], "space": sp}
 
@@ -175,7 +175,7 @@ def rand_queries(rng, ts, tunits, strict):
 def gen_cases(rng, tier):
     cases = []
     maxn = 4 if tier == "quick" else 5
-    shapes = list(itertools.product(range(1, maxn + 1), repeat=3))
+    shapes = list(itertools.product(range(1, maxn + 1), repeat=3)) * (1 if tier == "quick" else 6)
     for (N, S, C) in shapes:
         for kind in ("grid", "graph"):
             data = [float(i) for i in range(N * S * C)] if rng.random() < 0.7 else [sysgen.rand_val(rng, zero=0.1) for _ in range(N * S * C)]
